@@ -5,7 +5,7 @@ package routing
 // Contracts for the verifier in /verif (comment-only file; no declarations).
 
 //@ func muskingum(inflows, laterals, s, prevInflow, prevOutflow, k, x, deltaT, outflows) returns (rs, rIn, rOut)
-//@   locals idx, nDays, kx2, denom, a1, a2, a3, i, inflow, lateral, outflow
+//@   locals idx, nDays, kx2, denom, a1, a2, a3, i@loop, inflow, lateral, outflow
 //@   canary [C11.canary-muskingum] implies(inflows.len > 0, outflows.at(0) == inflows.at(0))
 //@   kernel
 //@   states s, prevInflow, prevOutflow
@@ -25,7 +25,7 @@ package routing
 // when the working volume is below MINIMUM_VOLUME (0.01)
 
 //@ func LumpedConstituentTransport(inflowLoads, lateralLoads, outflows, storage, initialStoredMass, x, pointInput, deltaT, outflowLoads, pointSourceLoad) returns (rStored)
-//@   locals nDays, idx, i, inflowLoad, lateralLoad, totalLoadIn, outflowR, outflowV, storedV, workingMass, workingVol, concentration, outflowLoad
+//@   locals nDays, idx, i@loop, inflowLoad, lateralLoad, totalLoadIn, outflowR, outflowV, storedV, workingMass, workingVol, concentration, outflowLoad
 //@   kernel
 //@   states initialStoredMass
 //@   noalias
@@ -47,7 +47,7 @@ package routing
 // ---- C12: constituent decay ----
 
 //@ func constituentDecay(inflowLoads, lateralLoads, inflows, outflows, storage, storedMass, x, halflife, deltaT, decayedLoad, outflowLoads) returns (rStored)
-//@   locals n, idx, day, decayedAmount, fraction, inflowLoad, lateralLoad, workingMass, outflowR, outflowV, storedV, workingVol, concentration, outflowLoad
+//@   locals n, idx, day@loop, decayedAmount, fraction, inflowLoad, lateralLoad, workingMass, outflowR, outflowV, storedV, workingVol, concentration, outflowLoad
 //@   kernel
 //@   states storedMass
 //@   noalias
@@ -68,7 +68,7 @@ package routing
 // ---- C12: in-stream coarse sediment: everything is deposited in the channel store ----
 
 //@ func instreamCoarseSediment(upstreamMass, lateralMass, reachLocalMass, channelStore, storedMass, deltaT, loadDownstream) returns (rChannel, rStored)
-//@   locals n, idx, i, dailyCoarseSedDeposited_Kg, totalDailyConstituentMass, incomingMass
+//@   locals n, idx, i@loop, dailyCoarseSedDeposited_Kg, totalDailyConstituentMass, incomingMass
 //@   kernel
 //@   states channelStore, storedMass
 //@   noalias
@@ -89,7 +89,7 @@ package routing
 //@ spec fineMaxStorage(propBankHeightForFineDep real, bankHeight real, linkWidth real, linkLength real, sedBulkDensity real) real = propBankHeightForFineDep * bankHeight * (linkWidth * linkLength) * sedBulkDensity * 1000.0
 
 //@ func instreamFineSediment(upstreamMass, lateralMass, reachLocalMass, reachVolume, outflow, channelStoreFine, totalStoredMass, bankFullFlow, fineSedSettVelocityFlood, floodPlainArea, linkWidth, linkLength, linkSlope, bankHeight, propBankHeightForFineDep, sedBulkDensity, manningsN, fineSedSettVelocity, fineSedReMobVelocity, durationInSeconds, loadDownstream, loadToFloodplain, loadToChannelDeposition, floodplainDepositionFraction, channelDepositionFraction) returns (rChannel, rStored)
-//@   locals n, idx, linkArea, maxStorage, i, incomingMassNow, outflowRate, outflowNow, reachVolumeNow, totalDailyConstsituentMass, totalVolume, combinedConstituentStorageBeforeDeposition, floodPlainDepositionFine_Kg_per_Day, proportionDepositedFloodplain, netStreamDepositionFineSed, proportionDepositedChannel, outflowLoad, concentration
+//@   locals n, idx, linkArea, maxStorage, i@loop, incomingMassNow, outflowRate, outflowNow, reachVolumeNow, totalDailyConstsituentMass, totalVolume, combinedConstituentStorageBeforeDeposition, floodPlainDepositionFine_Kg_per_Day, proportionDepositedFloodplain, netStreamDepositionFineSed, proportionDepositedChannel, outflowLoad, concentration
 //@   kernel
 //@   states channelStoreFine, totalStoredMass
 //@   carries-normalised channelStoreFine
@@ -114,7 +114,7 @@ package routing
 // ---- C12: in-stream particulate nutrient ----
 
 //@ func instreamParticulateNutrient(incomingMassUpstream, incomingMassLateral, reachVolume, outflow, streamBankErosion, lateralSediment, floodplainDepositionFraction, channelDepositionFraction, initialInstreamStoredMass, initialChannelStoredMass, particulateNutrientConcentration, soilPercentFine, durationInSeconds, loadDeposited, loadFromStreambank, loadDownstream, loadToFloodplain) returns (rInstream, rChannel)
-//@   locals n, idx, i, incomingUpstream, incomingLateral, totalDailyConstsituentMass, totalDailyConstsituentMassForDepositionProcesses, streamBankParticulate, fpDepositionFraction, nutrientDailyDepositedFloodPlain, bedDepositSignal, bedExchange, resuspension, netLoss, amountLeft, outflowRate, outflowV, storedV, workingVol, concentration, outflowLoad
+//@   locals n, idx, i@loop, incomingUpstream, incomingLateral, totalDailyConstsituentMass, totalDailyConstsituentMassForDepositionProcesses, streamBankParticulate, fpDepositionFraction, nutrientDailyDepositedFloodPlain, bedDepositSignal, bedExchange, resuspension, netLoss, amountLeft, outflowRate, outflowV, storedV, workingVol, concentration, outflowLoad
 //@   kernel
 //@   states initialInstreamStoredMass, initialChannelStoredMass
 //@   noalias
@@ -137,7 +137,7 @@ package routing
 // returned buffer holds C[n .. n+L).
 
 //@ func lag(inflow, lagged, timeLag, outflow) returns (r)
-//@   locals lagSteps, idx, i, idxInflow, i, i, i, i
+//@   locals lagSteps, idx, i@loop, idxInflow, i@loop, i@loop, i@loop, i@loop
 //@   loopsigs 6bc312ab 352e7ea0 67f41d6c b21c8381 c90fd63e
 //@   kernel causal-by-ensures
 //@   states lagged
@@ -195,7 +195,7 @@ package routing
 //@   ensures [C11.sr-law] implies(outflow > 0 && qi > 0 && storage > lateral*duration, storage == routingConstant*pow(qi, routingPower) + deadStorage)
 
 //@ func storageRouting(inflows, laterals, rainfall, evap, s, prevInflow, prevOutflow, bias, k, x, area, deadStorage, deltaT, outflows, storages) returns (rS, rIn, rOut)
-//@   locals n, idx, Klimit, Qlimit, Koffset, qi, outflow, storage, inflow, i, lateral, evapRate
+//@   locals n, idx, Klimit, Qlimit, Koffset, qi, outflow, storage, inflow, i@loop, lateral, evapRate
 //@   kernel
 //@   states s, prevInflow, prevOutflow
 //@   approx qi
@@ -215,7 +215,7 @@ package routing
 
 // in-stream dissolved nutrient (decay): structural obligations only
 //@ func instreamDissolvedNutrient
-//@   locals n, idx, prevVolume, timeStepInDays, pointSourcePerSecond, i, reachVolumeNow, incomingMassUpstreamNow, incomingMassLateralNow, outflowNow, incomingMassNow, totalConstsituentLoad, pointSourceLoad_kg, constituentStoragePriorToInflows, loadOut, waterDepth, dailyDecayedConstituentLoad, effectiveDecayCoefficient, decayCoefficient, travelTimeInSeconds, avStorage, crossAreaSection_m2, flowVelocity, outflowRate, DailyLateralLoad_Kg_per_s, allAvailConstit
+//@   locals n, idx, prevVolume, timeStepInDays, pointSourcePerSecond, i@loop, reachVolumeNow, incomingMassUpstreamNow, incomingMassLateralNow, outflowNow, incomingMassNow, totalConstsituentLoad, pointSourceLoad_kg, constituentStoragePriorToInflows, loadOut, waterDepth, dailyDecayedConstituentLoad, effectiveDecayCoefficient, decayCoefficient, travelTimeInSeconds, avStorage, crossAreaSection_m2, flowVelocity, outflowRate, DailyLateralLoad_Kg_per_s, allAvailConstit
 //@   structural only
 //@   kernel
 //@   states storedMass
@@ -234,7 +234,7 @@ package routing
 //@   ensures [C04.param-view] m.DeltaT.rank == 1 && m.DeltaT.dim(0) == parameters.dim(1) && m.DeltaT.root == parameters.root && forall(c, 0, parameters.dim(1), m.DeltaT.idx(c) == parameters.idx(2, c))
 
 //@ func (*Muskingum).Run(m, inputs, states, outputs)
-//@   locals inputDims, numCells, numStates, numInputSequences, inputLen, cellInputsShape, inputNewShape, outputStepSlice, outputSizeSlice, statesSizeSlice, inputsSizeSlice, doneChan, j, outputPosSlice, statesPosSlice, inputsPosSlice, k, x, deltat, initialStates, s, previnflow, prevoutflow, cellInputs, inflow, lateral, outflow, j
+//@   locals inputDims, numCells, numStates, numInputSequences, inputLen, cellInputsShape, inputNewShape, outputStepSlice, outputSizeSlice, statesSizeSlice, inputsSizeSlice, doneChan, j@loop, outputPosSlice, statesPosSlice, inputsPosSlice, k, x, deltat, initialStates, s, previnflow, prevoutflow, cellInputs, inflow, lateral, outflow, j@loop
 //@   loopsigs c4416304 e11cefee
 //@   ndmodel locations
 //@   requires inputs.rank == 3 && states.rank == 2 && outputs.rank == 3
@@ -281,7 +281,7 @@ package routing
 //@   ensures [C04.param-view] m.timeLag != nil && m.timeLag.rank == 1 && m.timeLag.dim(0) == parameters.dim(1) && m.timeLag.root == parameters.root && forall(c, 0, parameters.dim(1), m.timeLag.idx(c) == parameters.idx(0, c))
 
 //@ func (*Lag).Run(m, inputs, states, outputs)
-//@   locals inputDims, numCells, numStates, numInputSequences, inputLen, cellInputsShape, inputNewShape, outputStepSlice, outputSizeSlice, statesSizeSlice, inputsSizeSlice, doneChan, j, outputPosSlice, statesPosSlice, inputsPosSlice, timelag, initialStates, lagged, cellInputs, inflow, outflow, j
+//@   locals inputDims, numCells, numStates, numInputSequences, inputLen, cellInputsShape, inputNewShape, outputStepSlice, outputSizeSlice, statesSizeSlice, inputsSizeSlice, doneChan, j@loop, outputPosSlice, statesPosSlice, inputsPosSlice, timelag, initialStates, lagged, cellInputs, inflow, outflow, j@loop
 //@   loopsigs 912769c5 e11cefee
 //@   ndmodel locations
 //@   requires inputs.rank == 3 && states.rank == 2 && outputs.rank == 3
